@@ -282,7 +282,10 @@ impl Inner<JN> for JitFunction {
 
 fn describe<const N: usize>(g: &GenericVmFunction<N>) -> String {
     let d = g.data();
-    format!("ssa={:?} choice_count={} output_count={} asm={:?} slot_count={}", d.verif_ssa().tape, d.choice_count(), d.output_count(), d.iter_asm().collect::<Vec<_>>(), d.slot_count())
+    // the variable map (Var -> input index) is part of the function: a simplified function keeps its parent's numbering
+    let mut vars: Vec<(usize, String)> = d.vars.iter().map(|(v, i)| (i, format!("{v:?}"))).collect();
+    vars.sort();
+    format!("ssa={:?} choice_count={} output_count={} asm={:?} slot_count={} vars={:?}", d.verif_ssa().tape, d.choice_count(), d.output_count(), d.iter_asm().collect::<Vec<_>>(), d.slot_count(), vars)
 }
 
 fn reuse_simplify<const N: usize, F>(backend: &str, funcs: &[F], r: &mut Report, classes: &Classes)
